@@ -77,10 +77,15 @@ def _one_scanner(job):
                 if d_buf is not None:
                     d_buf = (d_buf[0], '[read requests and tokens, vs Runtime/Buf.lean] ' + str(d_buf[1]), d_buf[2])
             rout = [l for l in rout if not l.startswith('rq ')]
-        d_model = rt.first_diff(rout, mod['out'])
+        # the Lean matchers are orders of magnitude slower than the scanner: running out of time on a long input with
+        # quadratic rescanning says nothing about flex.  Such a case is counted (model_timeouts), still decided by the
+        # sanitizers, the ledger and whichever matcher did finish, and never reported as a difference.
+        mod_to = mod['rc'] == -999 and mod.get('err') == 'timeout'
+        spec_to = spec['rc'] == -999 and spec.get('err') == 'timeout'
+        d_model = None if mod_to else rt.first_diff(rout, mod['out'])
         if d_model is None and d_buf is not None:
             d_model = d_buf
-        d_spec = rt.first_diff(rout, spec['out'])
+        d_spec = None if spec_to else rt.first_diff(rout, spec['out'])
         st = real.get('stats', {})
         ledger = None
         if cfg.ledger and real['rc'] == 0:
@@ -93,7 +98,9 @@ def _one_scanner(job):
         cr = {'k': k, 'rc': real['rc'], 'events': len(real['out']), 'd_model': d_model, 'd_spec': d_spec,
               'bufsize': c.get('bufsize'), 'sched': c.get('sched'), 'nacts': len(c.get('acts') or {}),
               'inlen': [len(s) for s in c['srcs']], 'ledger': cr_ledger, 'stats': st}
-        bad = real['rc'] != 0 or d_model is not None or d_spec is not None or mod['rc'] != 0 or ledger is not None
+        if mod_to or spec_to:
+            cr['model_timeout'] = int(mod_to) + int(spec_to)
+        bad = real['rc'] != 0 or d_model is not None or d_spec is not None or (mod['rc'] != 0 and not mod_to) or ledger is not None
         if bad:
             cr['case'] = ct
             cr['real_tail'] = real['out'][-12:]
@@ -690,5 +697,30 @@ def fam_sertrail(rng):
     return rs, cfg, _ops_case(kinds=['less', 'return'] + (['reject'] if rej else []), small=not rej)
 
 
-FAMILIES = {'scbol': fam_scbol, 'stdioint': fam_stdioint, 'switchwrap': fam_switchwrap, 'memmore': fam_memmore, 'inputbol': fam_inputbol, 'sertrail': fam_sertrail, 'buffers': fam_buffers, 'include': fam_include, 'plain': fam_plain, 'ops': fam_ops, 'unput': fam_unput, 'reject': fam_reject,
+def fam_nultail(rng):
+    """NUL in the last equivalence class together with the bytes from 0x80 up, mostly with a power-of-two number of
+    classes and full tables: the tables' last column is the one the generator may decide to do without"""
+    rs = rules.gen_nultail_ruleset(rng)
+    cfg = rt.Config(backend=_backend(rng, cxx=True), topt=rng.choice([['-Cfe'], ['-Cfe'], ['-Cfe'], ['-CFe'], ['-Cfae'], ['-Cem'], ['-Ce']]),
+                    interactive=rng.choice([None, False]))
+
+    def gen(rng, rs, cfg):
+        n = rng.choice([5, 20, 60])
+        alphabet = [c for r in rs.rules if r['head'][0] == 'chr' for c in [r['head'][1]]] or [97]
+        inp = []
+        for _ in range(n):
+            x = rng.random()
+            if x < 0.35:
+                inp.append(rng.randrange(128, 256))
+            elif x < 0.45:
+                inp.append(0)
+            elif x < 0.8:
+                inp.append(rng.choice(alphabet))
+            else:
+                inp.append(rng.randrange(1, 128))
+        return dict(srcs=[inp], main=['lex'], sched=rtgen.gen_sched(rng), bufsize=rng.choice(rtgen.BUFSIZES))
+    return rs, cfg, gen
+
+
+FAMILIES = {'nultail': fam_nultail, 'scbol': fam_scbol, 'stdioint': fam_stdioint, 'switchwrap': fam_switchwrap, 'memmore': fam_memmore, 'inputbol': fam_inputbol, 'sertrail': fam_sertrail, 'buffers': fam_buffers, 'include': fam_include, 'plain': fam_plain, 'ops': fam_ops, 'unput': fam_unput, 'reject': fam_reject,
             'lineno': fam_lineno, 'trail': fam_trail, 'eof': fam_eof, 'deepstack': fam_deepstack, 'reads': fam_reads, 'bufreq': fam_bufreq, 'arraymore': fam_arraymore, 'wrapbol': fam_wrapbol}
